@@ -1021,7 +1021,13 @@ fn g_steps_raw<F: Family>(p: &Program<F>, s: &GState<F>, t: usize, strict: bool)
         out.push((false, Label::Start, n));
         return out;
     }
-    if weak() && F::m_forced_blocked(&s.m, t) && (s.th[t].pc as usize) < p.threads[t].len() {
+    if weak()
+        && F::m_forced_blocked(&s.m, t)
+        && (s.th[t].pc as usize) < p.threads[t].len()
+        // ... and an operation without a scheduling point of its own (recorded as such) still runs
+        // in the same step as the previous one
+        && F::m_no_sched_point(&p.threads[t][s.th[t].pc as usize]).is_none()
+    {
         // held blocked by the modelled defect (takes effect at the thread's next scheduling point,
         // i.e. before its next operation; a thread with nothing left to do still finishes)
         return out;
